@@ -11,11 +11,17 @@
    [positional cfg] says the configuration selects positional comparison at
    every list (--arrays position, --aoh position|dpos, the defaults);
    [uniform cfg am hm] says it selects --arrays am and --aoh hm at every list;
-   [wf_doc] says a document is real Python data (unique, untagged scalar keys
-   and set members).  [e_loc] is the structural location of an entry (ghost
+   [wf_doc] says a document is real loaded Python data (unique, untagged scalar
+   keys and set members; a set carries no explicit tag).  [e_loc] is the structural location of an entry (ghost
    field built next to the path text; the text itself is compared with the
    implementation by the correspondence check and resolved on the real code
    by the judge).
+
+   Findings F1 (Python == is not data equality where tags are involved) and F3
+   (a null facing a container is covered by no entry) are REPAIRED in the code
+   (docs/C06.md): the theorems that carried the guards [untagged] / [faces_b] /
+   [null_guard] are now full, resp. guarded by [root_guard] (about the two
+   document roots only).
 
    What is NOT proved here (checked only by the correspondence run and the
    judge, see docs/C06.md "missing"): the non-SAME <-> differ equivalence for
@@ -41,62 +47,48 @@ Theorem C06_truthful :
 Proof. exact positional_truthful. Qed.
 Print Assumptions C06_truthful.
 
-(* SAME values are equal and CHANGE values differ -- under Python's == on the
-   loaded nodes (node_eq: dict equality without key order, list equality,
-   set equality, identity for tagged scalars). *)
-Theorem C06_same_equal_py :
+(* SAME values are equal and CHANGE values differ -- under the differ's own
+   value comparison Differ._same_data (val_eq). *)
+Theorem C06_same_equal_impl :
   forall path_eq cfg L R es,
     positional cfg -> wf_doc L = true -> wf_doc R = true ->
     compare_to path_eq cfg L R = Ok es ->
-    Forall (fun e => e_action e = ASame -> node_eq (e_lhs e) (e_rhs e) = true) es.
+    Forall (fun e => e_action e = ASame -> val_eq (e_lhs e) (e_rhs e) = true) es.
 Proof. exact positional_same_py. Qed.
-Print Assumptions C06_same_equal_py.
+Print Assumptions C06_same_equal_impl.
 
-Theorem C06_change_differs_py :
+Theorem C06_change_differs_impl :
   forall path_eq cfg L R es,
     positional cfg -> wf_doc L = true -> wf_doc R = true ->
     compare_to path_eq cfg L R = Ok es ->
-    Forall (fun e => e_action e = AChange -> node_eq (e_lhs e) (e_rhs e) = false) es.
+    Forall (fun e => e_action e = AChange -> val_eq (e_lhs e) (e_rhs e) = false) es.
 Proof. exact positional_change_py. Qed.
-Print Assumptions C06_change_differs_py.
+Print Assumptions C06_change_differs_impl.
 
 (* SAME values are equal and CHANGE values differ AS DATA (the spec's data_eq:
-   key order is not data, sequence order and tags are).  Guard: neither
-   document carries an explicit YAML tag -- with tags the statement is false
-   (known finding F1): a TaggedScalar is compared by identity and container
-   tags are ignored by Python's ==. *)
-Theorem C06_same_equal_partial :
+   key order is not data, sequence order and tags are) -- all document pairs,
+   tags included.  (Before the repair of finding F1 the values were compared
+   with Python's ==, which is identity on TaggedScalars and ignores container
+   tags, and these two theorems needed the guard "no explicit tag anywhere".) *)
+Theorem C06_same_equal :
   forall path_eq cfg L R es,
     positional cfg -> wf_doc L = true -> wf_doc R = true ->
-    untagged L = true -> untagged R = true ->
     compare_to path_eq cfg L R = Ok es -> Forall same_ok es.
 Proof. exact positional_same_equal. Qed.
-Print Assumptions C06_same_equal_partial.
+Print Assumptions C06_same_equal.
 
-Theorem C06_same_equal_refuted :
-  exists L R es, wf_doc L = true /\ wf_doc R = true /\
-    compare_to path_eq_real dflt_cfg L R = Ok es /\ ~ Forall same_ok es.
-Proof. exact same_equal_refuted_witness. Qed.
-
-Theorem C06_change_differs_partial :
+Theorem C06_change_differs :
   forall path_eq cfg L R es,
     positional cfg -> wf_doc L = true -> wf_doc R = true ->
-    untagged L = true -> untagged R = true ->
     compare_to path_eq cfg L R = Ok es -> Forall change_ok es.
 Proof. exact positional_change_differs. Qed.
-Print Assumptions C06_change_differs_partial.
+Print Assumptions C06_change_differs.
 
-Theorem C06_change_differs_refuted :
-  exists L R es, wf_doc L = true /\ wf_doc R = true /\
-    compare_to path_eq_real dflt_cfg L R = Ok es /\ ~ Forall change_ok es.
-Proof. exact change_differs_refuted_witness. Qed.
-
-(* Python's == on loaded nodes IS data equality on real, untagged documents *)
-Theorem C06_python_eq_is_data_eq :
-  forall a b, wf_doc a = true -> wf_doc b = true -> untagged a = true -> untagged b = true ->
-    node_eq a b = data_eq a b.
-Proof. exact node_eq_data_eq. Qed.
-Print Assumptions C06_python_eq_is_data_eq.
+(* Differ._same_data IS data equality on real documents, tags included *)
+Theorem C06_same_data_is_data_eq :
+  forall a b, wf_doc a = true -> wf_doc b = true -> val_eq a b = data_eq a b.
+Proof. exact val_eq_data_eq. Qed.
+Print Assumptions C06_same_data_is_data_eq.
 
 (* A positional comparison always yields a diff: the fuel compare_to hands to
    the recursion suffices (never OutOfFuel) and nothing raises -- in
@@ -136,12 +128,15 @@ Proof. exact printed_default_are_differences. Qed.
 
 (* ---- completeness (positional comparison): every leaf of either document is
    covered by an entry at its location or at an ancestor's location
-   (references compared as Python compares keys).  Guard [faces_b]: at no
-   common location does a null scalar face a container with content -- there
-   the statement is false (known finding F3). ---- *)
+   (references compared as Python compares keys).  Guard [root_guard], about
+   the two ROOTS only: not (one document is null and the other a container with
+   content) -- what is left of finding F3 after its repair: Python None at the
+   root is how an empty document arrives, and "document vs nothing" lists only
+   the other side (pinned by the CLI tests).  A null that has a parent is now
+   deleted / added like any other scalar. ---- *)
 Theorem C06_complete_partial :
   forall path_eq cfg L R es,
-    positional cfg -> wf_doc L = true -> wf_doc R = true -> faces_b L R = true ->
+    positional cfg -> wf_doc L = true -> wf_doc R = true -> root_guard L R = true ->
     compare_to path_eq cfg L R = Ok es -> covers_left L es /\ covers_right R es.
 Proof. exact positional_covers. Qed.
 Print Assumptions C06_complete_partial.
@@ -151,64 +146,59 @@ Theorem C06_complete_refuted :
     compare_to path_eq_real dflt_cfg L R = Ok es /\ ~ covers_left L es.
 Proof. exact complete_refuted_witness. Qed.
 
-(* the computable guard means what it should: no facing null / container pair *)
-Theorem C06_faces_guard_sound : forall L R, faces_b L R = true -> faces_ok L R.
-Proof. exact faces_b_ok. Qed.
-Print Assumptions C06_faces_guard_sound.
+(* the guard holds of every pair of documents neither of which is null *)
+Theorem C06_root_guard_nonnull :
+  forall L R, is_null_leaf L = false -> is_null_leaf R = false -> root_guard L R = true.
+Proof. exact root_guard_nonnull. Qed.
 
 (* ---- the diff contains a non-SAME entry exactly when the documents differ
    as data.  [equiv am hm] (Spec/C06Spec.v) is data equality with sequence
    order disregarded where the options say so: under --arrays value (and
-   --aoh value) a sequence is a bag of its elements.  All document pairs,
-   every uniform pair of options --arrays position|value x --aoh
-   position|dpos|value, any YAMLPath.__eq__ in the pop step.  Guard: no
-   explicit YAML tags (finding F1).  The identity-key modes follow below
-   (they need the guard of finding F4). ---- *)
-Theorem C06_nonsame_iff_differ_partial :
+   --aoh value) a sequence is a bag of its elements.  ALL document pairs (tags
+   included since the repair of finding F1), every uniform pair of options
+   --arrays position|value x --aoh position|dpos|value, any YAMLPath.__eq__ in
+   the pop step.  The identity-key modes follow below (they need the guard of
+   finding F4). ---- *)
+Theorem C06_nonsame_iff_differ :
   forall path_eq cfg am hm L R es,
     uniform cfg am hm -> unkeyed hm = true ->
-    wf_doc L = true -> wf_doc R = true -> untagged L = true -> untagged R = true ->
+    wf_doc L = true -> wf_doc R = true ->
     compare_to path_eq cfg L R = Ok es ->
     shows_difference es = negb (equiv am hm L R).
 Proof. exact nonsame_iff_differ. Qed.
-Print Assumptions C06_nonsame_iff_differ_partial.
+Print Assumptions C06_nonsame_iff_differ.
 
 (* positional comparison: [equiv] is plain data equality *)
-Theorem C06_nonsame_iff_differ_positional_partial :
+Theorem C06_nonsame_iff_differ_positional :
   forall path_eq cfg hm L R es,
     uniform cfg ArrPosition hm -> hm = AohPosition \/ hm = AohDpos ->
-    wf_doc L = true -> wf_doc R = true -> untagged L = true -> untagged R = true ->
+    wf_doc L = true -> wf_doc R = true ->
     compare_to path_eq cfg L R = Ok es ->
     shows_difference es = negb (data_eq L R).
 Proof. exact nonsame_iff_differ_positional. Qed.
-Print Assumptions C06_nonsame_iff_differ_positional_partial.
+Print Assumptions C06_nonsame_iff_differ_positional.
 
 Theorem C06_equiv_positional_is_data_eq :
   forall hm, hm = AohPosition \/ hm = AohDpos -> forall a b, equiv ArrPosition hm a b = data_eq a b.
 Proof. exact equiv_positional. Qed.
 
-Theorem C06_nonsame_iff_differ_refuted :
-  exists L R es, wf_doc L = true /\ wf_doc R = true /\ data_eq L R = true /\
-    compare_to path_eq_real dflt_cfg L R = Ok es /\ shows_difference es = true.
-Proof. exact nonsame_iff_refuted_witness. Qed.
-
 (* ---- corollary: a document compared with itself, or with a second load of
    itself, shows no difference ---- *)
-Theorem C06_reflexive_partial :
+Theorem C06_reflexive :
   forall path_eq cfg am hm L es,
-    uniform cfg am hm -> unkeyed hm = true -> wf_doc L = true -> untagged L = true ->
+    uniform cfg am hm -> unkeyed hm = true -> wf_doc L = true ->
     compare_to path_eq cfg L L = Ok es -> shows_difference es = false.
 Proof. exact reflexive_no_difference. Qed.
-Print Assumptions C06_reflexive_partial.
+Print Assumptions C06_reflexive.
 
-Theorem C06_equal_no_difference_partial :
+Theorem C06_equal_no_difference :
   forall path_eq cfg am hm L R es,
     uniform cfg am hm -> unkeyed hm = true ->
-    wf_doc L = true -> wf_doc R = true -> untagged L = true -> untagged R = true ->
+    wf_doc L = true -> wf_doc R = true ->
     data_eq L R = true ->
     compare_to path_eq cfg L R = Ok es -> shows_difference es = false.
 Proof. exact equal_no_difference. Qed.
-Print Assumptions C06_equal_no_difference_partial.
+Print Assumptions C06_equal_no_difference.
 
 (* ---- EVERY uniform pair of options, the identity-key modes included:
    --arrays position|value x --aoh position|dpos|value|key|deep, no [keys]
@@ -218,12 +208,13 @@ Print Assumptions C06_equal_no_difference_partial.
    record with the same identity value that is equal (key) / equivalent
    (deep).  Guard [kguard] (finding F4): every list pair the comparison reads
    by identity key is well keyed -- all elements of both lists are records
-   holding a scalar under the identity key, pairwise different -- checked along
-   the pairing the modes define (for position / dpos / value it only descends). ---- *)
+   holding a plain scalar under the identity key, pairwise different -- checked
+   along the pairing the modes define (for position / dpos / value it only
+   descends). ---- *)
 Theorem C06_nonsame_iff_differ_keyed_partial :
   forall path_eq cfg am hm L R es,
     uniform cfg am hm -> c_keys cfg = [] ->
-    wf_doc L = true -> wf_doc R = true -> untagged L = true -> untagged R = true ->
+    wf_doc L = true -> wf_doc R = true ->
     kguard am hm L R = true ->
     compare_to path_eq cfg L R = Ok es ->
     shows_difference es = negb (equiv am hm L R).
@@ -233,7 +224,7 @@ Print Assumptions C06_nonsame_iff_differ_keyed_partial.
 Theorem C06_reflexive_keyed_partial :
   forall path_eq cfg am hm L es,
     uniform cfg am hm -> c_keys cfg = [] ->
-    wf_doc L = true -> untagged L = true -> kguard am hm L L = true ->
+    wf_doc L = true -> kguard am hm L L = true ->
     compare_to path_eq cfg L L = Ok es -> shows_difference es = false.
 Proof. exact reflexive_keyed. Qed.
 Print Assumptions C06_reflexive_keyed_partial.
@@ -249,7 +240,7 @@ Print Assumptions C06_sync_key_shape.
 
 (* --aoh key: a record without the identity key makes a list differ from itself (F4) *)
 Theorem C06_reflexive_refuted :
-  exists cfg d es, uniform cfg ArrPosition AohKey /\ wf_doc d = true /\ untagged d = true /\
+  exists cfg d es, uniform cfg ArrPosition AohKey /\ wf_doc d = true /\
     compare_to path_eq_real cfg d d = Ok es /\ shows_difference es = true.
 Proof. exact reflexive_refuted_witness. Qed.
 
@@ -259,11 +250,10 @@ Proof. exact reflexive_refuted_witness. Qed.
    values of the SAME / CHANGE / DELETE entries, those of the right document
    the leaves of the right values of the SAME / CHANGE / ADD entries -- through
    mappings, sets, both synchronisers and the pop-a-DELETE-to-make-a-CHANGE
-   step.  Guard [null_guard] (finding F3, in a form that does not depend on
-   which values get paired). ---- *)
+   step.  Guard [root_guard] (the two roots only; what is left of finding F3). ---- *)
 Theorem C06_accounting_partial :
   forall path_eq cfg L R es,
-    wf_doc L = true -> wf_doc R = true -> null_guard L R = true -> null_guard R L = true ->
+    wf_doc L = true -> wf_doc R = true -> root_guard L R = true ->
     compare_to path_eq cfg L R = Ok es ->
     Permutation (left_leaves es) (leaves L) /\ Permutation (right_leaves es) (leaves R).
 Proof. exact accounting_all_modes. Qed.
@@ -307,7 +297,7 @@ Proof. vm_compute. split; reflexivity. Qed.
 Example C06_guard_example :
   let L := sq 0 [mp 1 [(lf 2 (PStr "a"), lf 3 (PInt 1)); (lf 4 (PStr "b"), lf 5 (PInt 2))]] in
   let R := sq 6 [mp 7 [(lf 4 (PStr "b"), lf 5 (PInt 2)); (lf 2 (PStr "a"), lf 3 (PInt 1))]] in
-  wf_doc L = true /\ wf_doc R = true /\ untagged L = true /\ untagged R = true /\
+  wf_doc L = true /\ wf_doc R = true /\
   acts (compare_to path_eq_real dflt L R) = Ok [(ASame, [RIdx 0])].
 Proof. vm_compute. repeat split; reflexivity. Qed.
 
@@ -325,22 +315,45 @@ Example C06_value_mode_change :
   Ok [(ASame, [RIdx 0]); (ASame, [RIdx 2]); (AChange, [RIdx 1])].
 Proof. vm_compute. reflexivity. Qed.
 
-(* a null facing a container with content: the null leaf is covered by no
-   entry (known finding F3; the reason C06_complete needs its guard) *)
-Example C06_complete_refuted_acts :
+(* finding F3, repaired: a null that has a parent, facing a container with
+   content, is deleted like any other scalar (it used to be covered by no entry) *)
+Example C06_fixed_null_faces_container :
   let L := mp 0 [(lf 1 (PStr "a"), lf 2 PNone)] in
   let R := mp 3 [(lf 1 (PStr "a"), mp 4 [(lf 5 (PStr "b"), lf 6 (PInt 1))])] in
-  wf_doc L = true /\ wf_doc R = true /\
-  acts (compare_to path_eq_real dflt L R) = Ok [(AAdd, [RKey (PStr "a"); RKey (PStr "b")])].
+  wf_doc L = true /\ wf_doc R = true /\ root_guard L R = true /\
+  acts (compare_to path_eq_real dflt L R) = Ok [(ADelete, [RKey (PStr "a")]); (AAdd, [RKey (PStr "a"); RKey (PStr "b")])] /\
+  acts (compare_to path_eq_real dflt R L) = Ok [(ADelete, [RKey (PStr "a"); RKey (PStr "b")]); (AAdd, [RKey (PStr "a")])].
 Proof. vm_compute. repeat split; reflexivity. Qed.
 
-(* two loads of one tagged scalar are different objects: CHANGE between equal
-   data (known finding F1) *)
-Example C06_same_refuted_tagged :
-  let t o := NLeaf (mkinfo o None false (Some "x")) (POther "b") in
-  data_eq (t 1%N) (t 2%N) = true /\
-  acts (compare_to path_eq_real dflt (t 1%N) (t 2%N)) = Ok [(AChange, [])].
-Proof. vm_compute. split; reflexivity. Qed.
+(* what is left of it: a null DOCUMENT against a container (the guard is false) *)
+Example C06_complete_refuted_acts :
+  let L := lf 2 PNone in
+  let R := mp 3 [(lf 5 (PStr "b"), lf 6 (PInt 1))] in
+  root_guard L R = false /\
+  acts (compare_to path_eq_real dflt L R) = Ok [(AAdd, [RKey (PStr "b")])].
+Proof. vm_compute. repeat split; reflexivity. Qed.
+
+(* finding F1, repaired: two loads of one tagged scalar are the same data (SAME;
+   it used to be CHANGE: TaggedScalar has identity equality only); a different
+   tag on an equal value is a CHANGE; differently tagged records of an
+   Array-of-Hashes are a CHANGE (used to be SAME: dict == ignores the tag);
+   differently tagged sequences are deleted / added whole, like mappings *)
+Example C06_fixed_tagged_scalars :
+  let t o g := NLeaf (mkinfo o None false (Some g)) (POther "b") in
+  data_eq (t 1%N "x") (t 2%N "x") = true /\
+  acts (compare_to path_eq_real dflt (t 1%N "x") (t 2%N "x")) = Ok [(ASame, [])] /\
+  acts (compare_to path_eq_real dflt (t 1%N "x") (t 2%N "y")) = Ok [(AChange, [])].
+Proof. vm_compute. repeat split; reflexivity. Qed.
+
+Example C06_fixed_tagged_containers :
+  let tm o g := NMap (mkinfo o None true (Some g)) [(lf 2 (PStr "x"), lf 3 (PInt 1))] in
+  let ts o g := NSeq (mkinfo o None true (Some g)) [lf 3 (PInt 1)] in
+  wf_doc (sq 0 [tm 1%N "a"]) = true /\
+  acts (compare_to path_eq_real dflt (sq 0 [tm 1%N "a"]) (sq 4 [tm 5%N "b"])) = Ok [(AChange, [RIdx 0])] /\
+  acts (compare_to path_eq_real dflt (sq 0 [tm 1%N "a"]) (sq 4 [tm 5%N "a"])) = Ok [(ASame, [RIdx 0])] /\
+  acts (compare_to path_eq_real dflt (ts 1%N "a") (ts 5%N "b")) = Ok [(ADelete, []); (AAdd, [])] /\
+  acts (compare_to path_eq_real dflt (ts 1%N "a") (ts 5%N "a")) = Ok [(ASame, [RIdx 0])].
+Proof. vm_compute. repeat split; reflexivity. Qed.
 
 (* key mode, a record without the identity key: a document compared with
    itself shows differences (known finding F4) *)
@@ -351,25 +364,25 @@ Example C06_reflexive_refuted_key_mode :
 Proof. vm_compute. reflexivity. Qed.
 
 (* ---- the guards of the new theorems are satisfiable by non-trivial pairs ---- *)
-(* nulls and nested containers on both sides, no null facing a container *)
+(* nulls and nested containers on both sides *)
 Example C06_complete_guard_example :
   let L := mp 0 [(lf 1 (PStr "a"), lf 2 PNone); (lf 3 (PStr "b"), sq 4 [lf 5 (PInt 1); mp 6 [(lf 7 (PStr "c"), lf 8 (PInt 2))]])] in
   let R := mp 9 [(lf 1 (PStr "a"), lf 10 (PInt 5)); (lf 3 (PStr "b"), sq 11 [lf 5 (PInt 1); mp 12 [(lf 7 (PStr "c"), lf 13 PNone)]]);
                  (lf 14 (PStr "d"), mp 15 [])] in
-  wf_doc L = true /\ wf_doc R = true /\ faces_b L R = true /\
+  wf_doc L = true /\ wf_doc R = true /\ root_guard L R = true /\
   acts (compare_to path_eq_real dflt L R) =
   Ok [(AChange, [RKey (PStr "a")]); (ASame, [RKey (PStr "b"); RIdx 0]); (AChange, [RKey (PStr "b"); RIdx 1; RKey (PStr "c")]);
       (AAdd, [RKey (PStr "d")])].
 Proof. vm_compute. repeat split; reflexivity. Qed.
 
-(* reordered records compared under --aoh deep (no null scalars), and flat
-   mappings holding nulls on both sides: the accounting guard holds *)
+(* reordered records compared under --aoh deep, and mappings holding nulls on
+   both sides (one facing an empty sequence): the accounting guard holds *)
 Example C06_accounting_guard_example :
   let L := sq 0 [mp 1 [(lf 2 (PStr "id"), lf 3 (PInt 1)); (lf 4 (PStr "v"), lf 5 (PStr "w"))];
                  mp 6 [(lf 2 (PStr "id"), lf 7 (PInt 2)); (lf 4 (PStr "v"), lf 8 (PStr "x"))]] in
   let R := sq 9 [mp 10 [(lf 2 (PStr "id"), lf 7 (PInt 2)); (lf 4 (PStr "v"), lf 8 (PStr "x"))];
                  mp 12 [(lf 2 (PStr "id"), lf 3 (PInt 1)); (lf 4 (PStr "v"), lf 13 (PStr "y"))]] in
-  wf_doc L = true /\ wf_doc R = true /\ null_guard L R = true /\ null_guard R L = true /\
+  wf_doc L = true /\ wf_doc R = true /\ root_guard L R = true /\
   acts (compare_to path_eq_real (cfg_of "position" "deep") L R) =
   Ok [(ASame, [RIdx 1; RKey (PStr "id")]); (AChange, [RIdx 1; RKey (PStr "v")]);
       (ASame, [RIdx 0; RKey (PStr "id")]); (ASame, [RIdx 0; RKey (PStr "v")])].
@@ -378,9 +391,9 @@ Proof. vm_compute. repeat split; reflexivity. Qed.
 Example C06_accounting_guard_example_nulls :
   let L := mp 0 [(lf 1 (PStr "a"), lf 2 PNone); (lf 3 (PStr "b"), lf 4 (PInt 1)); (lf 5 (PStr "c"), sq 6 [])] in
   let R := mp 7 [(lf 1 (PStr "a"), lf 8 (PInt 2)); (lf 3 (PStr "b"), lf 9 PNone); (lf 5 (PStr "c"), lf 10 PNone)] in
-  wf_doc L = true /\ wf_doc R = true /\ null_guard L R = true /\ null_guard R L = true /\
+  wf_doc L = true /\ wf_doc R = true /\ root_guard L R = true /\
   acts (compare_to path_eq_real (cfg_of "value" "key") L R) =
-  Ok [(AChange, [RKey (PStr "a")]); (AChange, [RKey (PStr "b")]); (AChange, [RKey (PStr "c")])].
+  Ok [(AChange, [RKey (PStr "a")]); (AChange, [RKey (PStr "b")]); (AAdd, [RKey (PStr "c")])].
 Proof. vm_compute. repeat split; reflexivity. Qed.
 
 (* value mode: a reordered list is equivalent and shows no difference; uniform configurations exist *)
@@ -392,7 +405,7 @@ Proof. split; intros nc; reflexivity. Qed.
 Example C06_iff_value_example :
   let L := mp 0 [(lf 1 (PStr "x"), sq 2 [lf 3 (PInt 1); lf 4 (PInt 2); lf 5 (PInt 3)])] in
   let R := mp 6 [(lf 1 (PStr "x"), sq 7 [lf 5 (PInt 3); lf 3 (PInt 1); lf 4 (PInt 2)])] in
-  wf_doc L = true /\ wf_doc R = true /\ untagged L = true /\ untagged R = true /\
+  wf_doc L = true /\ wf_doc R = true /\
   data_eq L R = false /\ equiv ArrValue AohValue L R = true /\
   omap shows_difference (compare_to path_eq_real (cfg_of "value" "value") L R) = Ok false /\
   omap shows_difference (compare_to path_eq_real dflt L R) = Ok true.
@@ -412,7 +425,7 @@ Example C06_keyed_guard_example :
   let s2 := mp 53 [(lf 51 (PStr "n"), lf 54 (PStr "q"))] in
   let L := mp 0 [(lf 1 (PStr "r"), sq 10 [rcd 20%N 1%Z "w" [s1; s2]; rcd 30%N 2%Z "x" []])] in
   let R := mp 6 [(lf 1 (PStr "r"), sq 11 [rcd 40%N 2%Z "x" []; rcd 60%N 1%Z "w" [s2; s1]])] in
-  wf_doc L = true /\ wf_doc R = true /\ untagged L = true /\ untagged R = true /\
+  wf_doc L = true /\ wf_doc R = true /\
   kguard ArrPosition AohDeep L R = true /\ kguard ArrPosition AohKey L R = true /\ kguard ArrValue AohDeep L R = true /\
   data_eq L R = false /\
   equiv ArrPosition AohDeep L R = true /\ equiv ArrPosition AohKey L R = false /\
